@@ -256,7 +256,7 @@ func checkC09(r *core.Run) {
 		seen := map[int64]bool{}
 		var ks []string
 		for len(ks) < n {
-			k := int64(4 + rg.Intn(120))
+			k := int64(20 + rg.Intn(140))
 			if !seen[k] {
 				seen[k] = true
 				ks = append(ks, fmt.Sprint(k))
